@@ -133,3 +133,38 @@ class AutoResetMulti(AutoReset):
         if tier != "quick":
             q += [("0", "N0N2", "N1", "SS", "S"), ("1", "N0", "N1", "N2", "S")]
         return q
+
+
+class EventV2Logic(Unit):
+    """v2::async_manual_reset_event (latch list + cancellable wrapper), MONITOR ONLY (no Coq model yet):
+    program = (sig0, thread programs over S R Y W<d> X<d>=request stop of wait d, K=kick, 'logic-only').
+    Checks on every explored schedule of the real code: each wait completes at most once; value iff its
+    push found the latch or a set() drained and popped it; done iff its stop callback unlinked it; nothing
+    drained is lost; a started wait whose stop was requested completes; ready() answers the latch."""
+    name = "event_v2/logic"; driver = "k1_event_v2"; cfg = "shim17"; handler = "eventv2_none"
+    maxruns = {"quick": 1500, "thorough": 60000}
+    nrandom = {"quick": 100, "thorough": 3000}
+    def programs(self, tier):
+        q = [("0", "W0", "S", "X0", "K", "logic-only"),
+             ("0", "W0", "W1", "S", "X1", "K", "logic-only"),
+             ("0", "W0", "SR", "X0", "K", "logic-only"),
+             ("1", "W0", "W1", "R", "S", "X1", "logic-only"),
+             ("0", "W0Y", "W1", "X0", "X1", "S", "logic-only")]
+        if tier != "quick":
+            q += [("0", "W0", "W1", "W2", "S", "X1", "R", "logic-only"), ("1", "W0", "X0", "R", "K", "logic-only"),
+                  ("0", "W0", "W1", "S", "S", "X0", "X1", "logic-only")]
+        return q
+    def model_args(self, prog): return "-"
+    def project(self, prog, events): return []
+    def nontrivial(self, proj): return False
+
+class EventV2Lifetime(EventV2Logic):
+    """same driver with the lifetime check on: after a wait completed (its receiver may destroy the
+    operation) nothing may touch its state word or list node.  Fails on the current tree in three ways
+    (cancellable start() vs completion on another thread: fetch_or(started) / inline stop();
+    atomic_intrusive_list try_lock_checking CAS on an unlinked node)."""
+    name = "event_v2/lifetime"
+    maxruns = {"quick": 2500, "thorough": 60000}
+    nrandom = {"quick": 0, "thorough": 1000}
+    def programs(self, tier):
+        return [("0", "W0", "S", "KK"), ("0", "W0", "S", "X0", "K"), ("0", "W0", "W1", "S", "X1", "K")]
